@@ -300,6 +300,7 @@ pub fn run_case(case: &Value) -> Value {
     let mut neutral = serde_json::Map::new();
     let mut full = serde_json::Map::new();
     let mut merge = serde_json::Map::new();
+    let mut unshadow = serde_json::Map::new();
     let mut mem1: Option<Value> = None;
     let empty = vec![];
     for c in case["cfgs"].as_array().unwrap_or(&empty) {
@@ -342,6 +343,7 @@ pub fn run_case(case: &Value) -> Value {
                 merge.insert(name.into(), run_two_phase_without(&env, sql, n, "GroupKeyReduction"));
             }
         }
+        if let Some(ns) = case["neutral_sql"].as_str() { unshadow.insert(name.into(), run_dist(&env, ns, n, self_ix).0); }
         runs.insert(name.into(), out);
         dist.insert(name.into(), info);
     }
@@ -350,6 +352,7 @@ pub fn run_case(case: &Value) -> Value {
     if !full.is_empty() { o["neutral_fullgather"] = Value::Object(full); }
     if !merge.is_empty() { o["neutral_twophase_nogkr"] = Value::Object(merge); }
     if let Some(m) = mem1 { o["neutral_mem1"] = m; }
+    if !unshadow.is_empty() { o["neutral_unshadow"] = Value::Object(unshadow); }
     o
 }
 
@@ -375,23 +378,22 @@ fn force_empty(cat: &Catalog, q: &mut QueryExpr) -> bool {
 
 /// `SELECT t.a AS x, t.b AS a FROM t ORDER BY t.a …`: the ORDER BY names an INPUT column by its qualified name while
 /// another output column carries that bare name as its alias (standard SQL: the qualified name is the input column)
-fn shadow_order(q: &mut QueryExpr) -> bool {
-    if q.order.is_empty() { return false; }
+fn shadow_order(q: &mut QueryExpr) -> Option<(usize, String)> {
+    if q.order.is_empty() { return None; }
     if let Body::Select(sel) = &mut q.body {
-        if sel.group.is_some() || sel.distinct || sel.proj.len() < 2 { return false; }
+        if sel.group.is_some() || sel.distinct || sel.proj.len() < 2 { return None; }
         let plain: Vec<(usize, String)> = sel.proj.iter().enumerate().filter_map(|(i, (e, _))| match e {
             Expr::Col { sql, .. } if sql.matches('.').count() == 1 => Some((i, sql.clone())), _ => None }).collect();
-        let Some((i, qualified)) = plain.first().cloned() else { return false };
+        let Some((i, qualified)) = plain.first().cloned() else { return None };
         let bare = qualified.split('.').nth(1).unwrap_or("").to_string();
         let j = (0..sel.proj.len()).find(|&j| j != i).unwrap();
-        if sel.proj.iter().any(|(_, a)| *a == bare) { return false; }
-        // the other column must be distinguishable from the sort column, else the defect cannot show
-        sel.proj[j].1 = bare;
+        if sel.proj.iter().any(|(_, a)| *a == bare) { return None; }
+        let original = std::mem::replace(&mut sel.proj[j].1, bare);
         let (desc, nf) = (q.order[0].desc, q.order[0].nulls_first);
         q.order = vec![SortKey { e: Expr::Col { i, sql: qualified }, desc, nulls_first: nf }];
-        return true;
+        return Some((j, original));
     }
-    false
+    None
 }
 
 pub fn main(o: &Opts) {
@@ -442,7 +444,14 @@ pub fn main(o: &Opts) {
         // special streams
         let special = r.below(12);
         if special == 0 && force_empty(&cat, &mut g.q) { tags.push("forced_empty".into()); }
-        if special == 1 && shadow_order(&mut g.q) { tags.push("shadow_order".into()); }
+        // neutraliser of finding C09-F7: the same statement with the shadowing alias given back its generated name
+        let mut neutral_sql: Option<String> = None;
+        if special == 1 { if let Some((j, original)) = shadow_order(&mut g.q) {
+            tags.push("shadow_order".into());
+            let mut q2 = g.q.clone();
+            if let Body::Select(sel) = &mut q2.body { sel.proj[j].1 = original; }
+            neutral_sql = Some(q2.sql());
+        } }
         // two clusters per case: sizes 1..8, the initiator holding a shard or not
         let mut cfgs = vec!["local".to_string()];
         let n1 = *r.pick(&[1usize, 1, 2, 2, 3, 3, 4, 5, 6, 7, 8]);
@@ -451,8 +460,9 @@ pub fn main(o: &Opts) {
         let n2 = *r.pick(&[1usize, 2, 3, 4, 5, 8]);
         let s2 = if r.chance(1, 3) { None } else { Some(r.below(n2 as u64) as usize) };
         if cfg_name(n2, s2) != cfgs[1] { cfgs.push(cfg_name(n2, s2)); }
-        let case = json!({"prop": "C09", "mode": "meta", "sql": g.q.sql(), "plan": g.q.plan(0), "tables": cat.tables_json(), "cat": cat.meta_json(),
+        let mut case = json!({"prop": "C09", "mode": "meta", "sql": g.q.sql(), "plan": g.q.plan(0), "tables": cat.tables_json(), "cat": cat.meta_json(),
                           "tags": tags, "engine_defined": g.engine_defined, "cfgs": cfgs, "layout": layout});
+        if let Some(ns) = neutral_sql { case["neutral_sql"] = json!(ns); }
         let imp = run_case(&case);
         emit(case, imp);
         n += 1;
